@@ -34,14 +34,20 @@ def generate(prop, rng, seed, index, tier):
     scat = []
     for _ in range(nsrc):
         s = g.add({'op': 'source'}, gen.INT)
+        if rng.random() < 0.15:
+            # the scattered elements are collections that are neither list nor dict (ranges, possibly empty):
+            # one element is one future whatever Client.scatter would do with such a collection
+            s = g.add({'op': 'map', 'up': [s], 'fn': ['torange', rng.choice([0, 1, 2])], 'pre': True}, ('any', True))
+            scat.append(g.add({'op': 'scatter', 'up': [s]}, ('any', True)))
+            continue
         scat.append(g.add({'op': 'scatter', 'up': [s]}, gen.INT))
     # only nodes downstream of a scatter are candidates
     real_candidates = g.candidates
 
     def cands(pred=lambda t: True):
-        return [i for i in real_candidates(pred) if g.graph[i]['op'] not in ('source',)]
+        return [i for i in real_candidates(pred) if g.graph[i]['op'] not in ('source',) and not g.graph[i].get('pre')]
     g.candidates = cands
-    if rng.random() < 0.25:
+    if rng.random() < 0.25 and not any(n.get('pre') for n in g.graph):
         # the same function object applied by two nodes to the same scattered element with different extras,
         # both results alive at once (joined by a zip)
         k1, k2 = rng.sample([1, 2, 3, 100], 2)
